@@ -7,7 +7,7 @@
                that info file*; navis' own reader on the container.
 * select     : which files a batch read looks at and in which order: folder / zip / tar × precomputed / NRRD / mesh reader ×
                `limit` (none, int, slice, list of names, substring) with decoy files (info, manifest, hidden, foreign
-               extension) vs the Lean `select…AW` models (corr where they meet the documentation) and vs `selectSpec` (oracle).
+               extension; `info` / manifests also in tar archives) vs the Lean `select…AW` models (corr) and vs `selectSpec` (oracle).
 * h5x        : HDF5 beyond the first pass: per-axis units (raw + serialized), soma, connectors of mesh / dotprops neurons,
                overwrite_neurons, subset, several representations under one id, read priorities, parallel order.
 * meshx      : write_mesh / read_mesh with Volumes, output='volume'|'trimesh', folder / zip / formatted targets, ids from names.
@@ -233,11 +233,10 @@ def case_select(ctx, case):
                 content[fn] = (fdir / fn).read_bytes()
         decoys = {}
         if reader == 'pre':
-            if cont != 'tar' or case.get('tar_info'):
-                # (in a tar archive PrecomputedReader.is_valid_file sees str(TarInfo) and lets `info` / manifests through:
-                #  open finding SIG_TAR_INFO, exercised only by the cases that ask for it)
-                decoys['info'] = json.dumps({'@type': 'neuroglancer_skeletons'}).encode()
-                decoys[f'{idpool[0]}:0'] = b'{"fragments": []}'
+            # `info` and a manifest in every container (also tar: PrecomputedReader.is_valid_file unwraps TarInfo entries since
+            # the repair recorded as SIG_TAR_INFO)
+            decoys['info'] = json.dumps({'@type': 'neuroglancer_skeletons'}).encode()
+            decoys[f'{idpool[0]}:0'] = b'{"fragments": []}'
             decoys['notes.txt'] = b'not a neuron'
             decoys[f'._{idpool[0]}'] = b'\x00\x01garbage'
         else:
@@ -310,22 +309,20 @@ def case_select(ctx, case):
             st, res = summarised()
         by_id = {idpool[j]: valid_names[j] for j in range(k)}
         have = 'RAISE ' + res if st == 'raise' else [by_id.get(i, f'?{i}') for i in res]
+        # signatures of the (repaired) defects this stream exhibited: they only label a regression, nothing is suppressed
         sig = None
-        if cont == 'tar' and reader == 'pre' and case.get('tar_info') and st == 'raise' and ('"info"' in res or ':0"' in res or 'Error reading' in res):
-            ctx.oracle(False, f'read_precomputed(tar archive containing an `info` file / manifest, limit={limit!r}): {res}; expected the '
-                              f'{len(spec)} skeleton files {spec}', case, signature=SIG_TAR_INFO)
-            return
-        if have == aw and aw != spec:
+        has_meta = any(f == 'info' or f.endswith(':0') for f in listing)
+        if cont == 'tar' and reader == 'pre' and has_meta and st == 'raise' and ('"info"' in res or ':0"' in res or 'Error reading' in res):
+            sig = SIG_TAR_INFO
+        elif st == 'ok' and have != spec:
             if kind == 'int' and cont in ('zip', 'tar'):
                 sig = SIG_INT
-            elif kind == 'names' and cont in ('dir', 'zip'):
+            elif kind == 'names' and cont in ('dir', 'zip') and have == []:
                 sig = SIG_NAMES
         ctx.oracle(have == spec, f'batch read ({reader} reader, {cont}, limit={limit!r}) of listing {listing}: returned {have}, the '
                                  f'documentation promises the valid files restricted by `limit` in listing order = {spec}', case, signature=sig)
-        if aw == spec:
-            ctx.corr(have, aw, f'files read ({reader}, {cont}, limit={limit!r}) vs Lean select…AW', case)
-        else:
-            ctx.count('select_aw_differs_from_spec', f'{cont},{kind}')
+        # the model of the code as written (= selectSpec for every container and limit: theorem selection_meets_spec)
+        ctx.corr(have, aw, f'files read ({reader}, {cont}, limit={limit!r}) vs Lean select…AW', case)
 
 
 # ------------------------------------------------------------------------------------------------
@@ -334,6 +331,7 @@ def case_select(ctx, case):
 SIG_H5_AXIS_W = 'H5WriterV1.write_*/raw/per-axis-units/ValueError-truth-value-of-array'
 SIG_H5_SOMA0 = 'H5WriterV1.write_*/raw/soma-is-node-id-0/has_soma-False/not-written'
 SIG_H5_AXIS_R = 'H5ReaderV1.parse_add_units/per-axis-units_nm/first-entry-only'
+SIG_H5_NAME = 'H5Writer.get_neuron_group/name=None/TypeError'
 AXIS_UNITS = [(['4 nm', '4 nm', '40 nm'], (4.0, 4.0, 40.0)), (['8 nm', '16 nm', '8 nm'], (8.0, 16.0, 8.0)),
               (['1 um', '1 um', '2 um'], (1000.0, 1000.0, 2000.0))]
 
@@ -401,22 +399,35 @@ def case_h5x(ctx, case):
                            f'{None if st2 != "ok" or len(res) != 1 else _units_nm(res[0])}, expected {nm} nm', case)
             # raw: the published schema stores units_nm as a 3-tuple
             fp2 = str(d / 'r.h5')
+            wname = {'skel': 'write_treeneuron', 'mesh': 'write_meshneuron', 'dp': 'write_dotprops'}[kd]
+            model = dict(kv.split('=') for kv in ctx.ask('c14.h5meta units ' + ';'.join(frac_s(Fraction(v)) for v in nm)).split())[wname]
             st, e = outcome(lambda: navis.write_h5(n, fp2, serialized=False, raw=True))
             if st == 'raise':
                 ctx.oracle(False, f'write_h5(raw=True) of a {kd} with per-axis units {units} raises {type(e).__name__}: {str(e)[:90]}', case,
                            signature=SIG_H5_AXIS_W if isinstance(e, ValueError) and 'truth value' in str(e) else None)
-                # reader side: a file navis wrote for isotropic units whose units_nm attribute is the per-axis triple
-                n1 = _h5_neuron(random.Random(case['seed']), kd, 7, f'{int(nm[0])} nm')
-                fp3 = str(d / 'r3.h5')
-                navis.write_h5(n1, fp3, serialized=False, raw=True)
-                with h5py.File(fp3, 'a') as f:
-                    f[f'7/{rep}'].attrs['units_nm'] = np.asarray(nm, dtype=float)
-                fp2 = fp3
-            with h5py.File(fp2, 'r') as f:
-                un = f[f'7/{rep}'].attrs.get('units_nm')
-            ctx.oracle(un is not None and tuple(float(v) for v in np.asarray(un).reshape(-1)) == nm,
-                       f'HDF5 raw units_nm attribute = {un!r}, expected {nm}', case)
-            st3, res = outcome(lambda: navis.read_h5(fp2, read=rep))
+                ctx.corr('RAISE', model, f'H5WriterV1.{wname}(raw) with per-axis units vs Lean h5UnitsAttr', case)
+            else:
+                with h5py.File(fp2, 'r') as f:
+                    un = f[f'7/{rep}'].attrs.get('units_nm')
+                ctx.oracle(un is not None and _close(tuple(float(v) for v in np.asarray(un).reshape(-1)), nm),
+                           f'HDF5 raw units_nm attribute = {un!r}, expected {nm}', case)
+                st3, res = outcome(lambda: navis.read_h5(fp2, read=rep))
+                got = None if st3 != 'ok' or len(res) != 1 else _units_nm(res[0])
+                ctx.oracle(_close(got, nm) and _same(kd, res[0], n), f'HDF5 (raw) round trip of a {kd} with per-axis units {units}: units read back as {got}, '
+                                                                    f'expected {nm} nm', case,
+                           signature=SIG_H5_AXIS_R if _close(got, (nm[0],) * 3) else None)
+                rq = lambda v: frac_s(Fraction(float(v)).limit_denominator(10 ** 6))   # noqa: E731  (pint: 1 um = 1000.0000000000001 nm)
+                impl = ('-' if un is None else ';'.join(rq(v) for v in np.asarray(un).reshape(-1))) + '|' + \
+                    (';'.join(rq(v) for v in got) if isinstance(got, tuple) else '-')
+                ctx.corr(impl, model, f'units_nm attribute | units_xyz read back ({wname}, raw) vs Lean h5UnitsAttr / h5ReadUnits', case)
+            # reader side on its own: a file navis wrote for isotropic units whose units_nm attribute is replaced by the per-axis
+            # triple with h5py (what another hnf writer produces)
+            n1 = _h5_neuron(random.Random(case['seed']), kd, 7, f'{int(nm[0])} nm')
+            fp3 = str(d / 'r3.h5')
+            navis.write_h5(n1, fp3, serialized=False, raw=True)
+            with h5py.File(fp3, 'a') as f:
+                f[f'7/{rep}'].attrs['units_nm'] = np.asarray(nm, dtype=float)
+            st3, res = outcome(lambda: navis.read_h5(fp3, read=rep))
             got = None if st3 != 'ok' or len(res) != 1 else _units_nm(res[0])
             ctx.oracle(_close(got, nm), f'read_h5 (raw data) of a {kd} whose units_nm is the per-axis triple {nm}: units read back as {got}', case,
                        signature=SIG_H5_AXIS_R if _close(got, (nm[0],) * 3) else None)
@@ -438,9 +449,33 @@ def case_h5x(ctx, case):
                 if raw and st == 'ok':
                     with h5py.File(fpx, 'r') as f:
                         a = f['9/skeleton'].attrs.get('soma')
+                    if np.ndim(want) == 0:
+                        ctx.corr('-' if a is None else str(int(a)), ctx.ask(f'c14.h5meta soma {int(want)}'),
+                                 'soma attribute of the raw skeleton vs Lean h5SomaAttr (guard of the current source)', case)
                     ctx.oracle(a is not None and [int(v) for v in np.atleast_1d(a)] == [int(v) for v in np.atleast_1d(want)],
                                f'independent HDF5 decoder: soma attribute {a!r}, written {want!r}', case,
                                signature=SIG_H5_SOMA0 if (a is None and [int(v) for v in np.atleast_1d(want)] == [0]) else None)
+        elif sub == 'noname':
+            # a neuron without a name (the default of TreeNeuron(df), MeshNeuron(...), make_dotprops) is written and read back
+            kd = case['kd']
+            n = _h5_neuron(r, kd, 23, '8 nm')
+            n.name = None
+            rep = {'skel': 'skeleton', 'mesh': 'mesh', 'dp': 'dotprops'}[kd]
+            for ser, raw in ((True, False), (False, True)):
+                fpx = str(d / f'n{int(ser)}.h5')
+                st, e = outcome(lambda: navis.write_h5(n, fpx, serialized=ser, raw=raw))
+                ctx.oracle(st == 'ok', f'write_h5(serialized={ser}, raw={raw}) of a {kd} whose name is None raises '
+                                       f'{type(e).__name__ if st == "raise" else ""}: {str(e)[:80] if st == "raise" else ""}', case,
+                           signature=SIG_H5_NAME if st == 'raise' and isinstance(e, TypeError) else None)
+                ctx.corr('RAISE' if st == 'raise' else 'absent', ctx.ask('c14.h5meta name 0'),
+                         'get_neuron_group with name=None vs Lean h5NameAttr (guard of the current source)', case)
+                if st != 'ok':
+                    continue
+                with h5py.File(fpx, 'r') as f:
+                    ctx.oracle('neuron_name' not in f['23'].attrs, f'neuron_name attribute {f["23"].attrs.get("neuron_name")!r} for a neuron without a name', case)
+                st2, res = outcome(lambda: navis.read_h5(fpx, read=rep))
+                ctx.oracle(st2 == 'ok' and len(res) == 1 and _same(kd, res[0], n) and res[0].name is None,
+                           f'HDF5 round trip (serialized={ser}, raw={raw}) of a {kd} without a name: {res if st2 == "raise" else [(x.id, x.name) for x in res]}', case)
         elif sub == 'conn_any':
             kd = case['kd']
             n = _h5_neuron(r, kd, 11, '8 nm', conn=True)
@@ -770,26 +805,33 @@ SIG_JSON_TYPES = 'write_json/NeuronList-of-MeshNeuron-or-Dotprops/accepted-geome
 
 
 def case_jsontypes(ctx, case):
-    """write_json documents TreeNeurons; a NeuronList is let through whatever it holds"""
+    """write_json documents TreeNeurons: anything else is refused – alone, in a NeuronList, or mixed with skeletons"""
     r = random.Random(case['seed'])
     kd = case['kd']
     n = _h5_neuron(r, kd, 21, '8 nm')
+    sk = _h5_neuron(r, 'skel', 22, '8 nm')
     ctx.count('jsontypes', kd)
-    for wrap in (False, True):
-        obj = navis.NeuronList([n]) if wrap else n
+    for wrap in ('single', 'list', 'mixed'):
+        members = [n] if wrap != 'mixed' else [sk, n]
+        obj = n if wrap == 'single' else navis.NeuronList(members)
         st, s = outcome(lambda: navis.write_json(obj, None))
+        kinds = ','.join(type(m).__name__ for m in members)
+        ctx.corr('0' if st == 'raise' and isinstance(s, TypeError) else ('1' if st == 'ok' else f'raise {type(s).__name__}'),
+                 ctx.ask(f"c14.h5meta jsonacc {0 if wrap == 'single' else 1} {kinds}"),
+                 f'write_json({wrap}: {kinds}) accepted? vs Lean jsonAccepts (member test of the current source)', case,
+                 signature=SIG_JSON_TYPES if wrap != 'single' and kd in ('mesh', 'dp') and st == 'ok' else None)
         if st == 'raise':
             ctx.oracle(isinstance(s, TypeError), f'write_json({kd}) raises {type(s).__name__}: {s}', case)
             continue
         st2, res = outcome(lambda: navis.read_json(s))
-        if kd == 'skel':      # content of skeleton JSON is the business of the `json` stream (10-digit float precision)
-            ctx.oracle(st2 == 'ok' and len(res) == 1 and res[0].n_nodes == n.n_nodes, 'read_json(write_json(TreeNeuron)) fails', case)
-            continue
-        ok = st2 == 'ok' and len(res) == 1 and _same(kd, res[0], n)
-        ctx.oracle(ok, f'write_json({"NeuronList of one " if wrap else ""}{type(n).__name__}) is accepted, but the JSON object has the keys '
-                       f'{list(json.loads(s)[0].keys())} (no vertices/faces/points) and read_json returns '
-                       f'{type(res[0]).__name__ if st2 == "ok" and len(res) else res!r} without the geometry written', case,
-                   signature=SIG_JSON_TYPES if wrap and kd in ('mesh', 'dp') else None)
+        # whatever is accepted must come back (content of skeleton JSON is the business of the `json` stream: 10-digit precision)
+        ok = st2 == 'ok' and len(res) == len(members) and all(
+            (x.n_nodes == m.n_nodes and isinstance(x, navis.TreeNeuron)) if isinstance(m, navis.TreeNeuron) else _same(kd, x, m)
+            for x, m in zip(res, members))
+        ctx.oracle(ok, f'write_json({wrap}: {kinds}) is accepted, but the JSON objects have the keys '
+                       f'{[list(o.keys()) for o in json.loads(s)]} and read_json returns '
+                       f'{[type(x).__name__ for x in res] if st2 == "ok" else res!r} without the geometry written', case,
+                   signature=SIG_JSON_TYPES if wrap != 'single' and kd in ('mesh', 'dp') else None)
 
 
 RUNNERS = {'jsontypes': case_jsontypes, 'container': case_container, 'select': case_select, 'h5x': case_h5x, 'meshx': case_meshx, 'nrrdx': case_nrrdx,
@@ -807,7 +849,10 @@ def gen_cases(ctx):
     for cont in ('dir', 'zip', 'tar'):
         yield 'select', dict(cont=cont, reader='pre', k=4, limit=['int', 2], seed=120)
         yield 'select', dict(cont=cont, reader='pre', k=4, limit=['names', [0, 2], 0], seed=121)
-    yield 'select', dict(cont='tar', reader='pre', k=3, limit=['none'], tar_info=True, seed=122)
+    yield 'select', dict(cont='tar', reader='pre', k=3, limit=['none'], seed=122)
+    for cont in ('zip', 'tar'):
+        yield 'select', dict(cont=cont, reader='pre', k=4, limit=['int', 0], seed=123)
+        yield 'select', dict(cont=cont, reader='pre', k=4, limit=['int', 3], seed=124)
     if h5py:
         yield 'h5x', dict(sub='axis_units', kd='skel', units=0, seed=130)
     # ---- containers: exhaustive kind × (skel radius on/off, mesh) in both tiers, random units / sizes
@@ -836,6 +881,7 @@ def gen_cases(ctx):
                 yield 'h5x', dict(sub='axis_units', kd=kd, units=u, seed=S())
             for _ in range(ctx.budget(2, 12)):
                 yield 'h5x', dict(sub='conn_any', kd=kd, seed=S())
+            yield 'h5x', dict(sub='noname', kd=kd, seed=S())
         yield 'h5x', dict(sub='soma', soma0=True, seed=S())
         for _ in range(ctx.budget(4, 30)):
             yield 'h5x', dict(sub='soma', seed=S())
